@@ -64,7 +64,10 @@ def build_driver():
 def extract(force=False):
     """Return the directory holding the fact files for the current tree (extracting if needed)."""
     os.makedirs(CACHE, exist_ok=True)
-    lock = open(os.path.join(CACHE, "extract.lock"), "w")
+    # one build directory (and lock) per analysed tree location: the registered commands always use /repo (slot ""); the seed / neutral
+    # matrix runs point GUARD_REPO at scratch worktrees and may extract several trees at once
+    slot = "" if os.path.realpath(REPO) == "/repo" else "-" + os.path.basename(os.path.normpath(REPO))
+    lock = open(os.path.join(CACHE, "extract%s.lock" % slot), "w")
     fcntl.flock(lock, fcntl.LOCK_EX)
     try:
         build_driver()
@@ -79,7 +82,7 @@ def extract(force=False):
         if os.path.exists(tmp):
             shutil.rmtree(tmp)
         os.makedirs(tmp)
-        target = os.path.join(CACHE, "target")
+        target = os.path.join(CACHE, "target" + slot)
         # cargo's freshness cache would skip the wrapper: drop the members' fingerprints
         fp = os.path.join(target, "debug", ".fingerprint")
         if os.path.isdir(fp):
@@ -114,7 +117,7 @@ def extract(force=False):
         # keep the cache small: retain the 6 most recent fact sets
         fdir = os.path.join(CACHE, "facts")
         ds = sorted((os.path.getmtime(os.path.join(fdir, d)), d) for d in os.listdir(fdir))
-        for _, d in ds[:-6]:
+        for _, d in ds[:-(6 if not slot else 40)]:
             shutil.rmtree(os.path.join(fdir, d), ignore_errors=True)
         return out
     finally:
